@@ -78,6 +78,9 @@ def markDeferred (h : Held) (x : String) (m : Mode) : Held :=
 /-- no lock is held whose release is not deferred (what must hold at a `return`) -/
 def allDeferred (h : Held) : Bool := h.all fun e => e.deferred
 
+/-- The locks that are still held after the deferred unlocks have run, i.e. once the function has returned. -/
+def heldAtExit (h : Held) : Held := h.filter fun e => !e.deferred
+
 /-- Is event `a` allowed in lock state `h`?  (The safety condition of the discipline.) -/
 def okA (g : Guards) (h : Held) : Atom → Bool
   | .lock x => !heldAny h x
